@@ -4,7 +4,7 @@ PROP=$1; PATCH=$2; TIER=${3:-quick}
 cd /repo || exit 9
 if ! git diff --quiet; then echo "repo dirty"; exit 9; fi
 if ! git apply --3way "$PATCH" 2>/tmp/seedapply.err; then
-  if ! git apply "$PATCH" 2>>/tmp/seedapply.err; then echo "APPLY-FAILED $(head -2 /tmp/seedapply.err | tr '\n' ' ')"; git checkout -- . ; git reset -q; exit 8; fi
+  if ! git apply "$PATCH" 2>>/tmp/seedapply.err; then echo "APPLY-FAILED $(head -2 /tmp/seedapply.err | tr '\n' ' ')"; git reset -q; git checkout -- . ; exit 8; fi
 fi
 git reset -q
 cd /verif
